@@ -85,6 +85,7 @@ CellWhys(c) ==
       THEN "P:C07:entropy-of-unsatisfiable-recipe-not-minus-infinity" ELSE "ok",
     IF c.prevChg > 0 THEN "P:C03:a-password-returned-earlier-changed-when-a-later-one-was-generated" ELSE "ok",
     IF c.prevChg > 0 THEN "P:C15:a-password-returned-earlier-changed-when-a-later-one-was-generated" ELSE "ok",
+    IF c.errChg > 0 THEN "P:C15:an-error-returned-by-an-earlier-call-changed-when-a-later-call-was-made" ELSE "ok",
     IF c.mutated = 1 THEN "P:C15:call-changed-public-fields-of-a-recipe-or-a-slice-the-caller-passed-in" ELSE "ok",
     IF c.twinDiff = 1 THEN "P:C15:results-differ-from-a-fresh-recipe-with-the-same-field-values-on-the-same-bytes" ELSE "ok",
     IF c.hidden = 1 THEN "P:C14:call-wrote-derived-state-into-the-callers-recipe-value" ELSE "ok",
